@@ -134,14 +134,14 @@ Upd(x, path, d, o) ==
 \* ---- actions ------------------------------------------------------------------
 \* the object is built through the public constructors
 New(v) == /\ cur = <<>>
-          /\ IsValue(v)
+          /\ IsValue(v) = TRUE
           /\ cur' = v /\ nw' = 0 /\ fresh' = FALSE
           /\ UNCHANGED vars
 
 \* one public mutator is called on the node at path
 Mut(path, o) == /\ cur # <<>>
-                /\ PathOK(cur, path, 1)
-                /\ OpOK(NodeAt(cur, path, 1), o)
+                /\ PathOK(cur, path, 1) = TRUE
+                /\ OpOK(NodeAt(cur, path, 1), o) = TRUE
                 /\ cur' = Upd(cur, path, 1, o)
                 /\ fresh' = FALSE
                 /\ UNCHANGED <<vars, nw>>
@@ -154,7 +154,7 @@ WriteObj == /\ cur # <<>>
 
 \* the program goes on with the object it read back instead of the one it wrote
 Adopt == /\ fresh /\ Len(backs) = 1
-         /\ SameValue(backs[1], cur)
+         /\ SameValue(backs[1], cur) = TRUE
          /\ UNCHANGED ovars
 
 \* ---- properties ---------------------------------------------------------------
